@@ -118,7 +118,13 @@ pub fn case(want_sample: bool) {
     with_rec(|r| r.active = true);
     let nthreads = 2 + rnd(3) as usize;
     let calls: Vec<usize> = (0..nthreads).map(|_| 2 + rnd(5) as usize).collect();
-    let with_warnings = rnd(6) == 0;
+    // 0: no warnings; 1: default warning configuration (1 s skew, at most one warning per
+    // second of REAL time - the rate limiter never opens within a run); 2: warnings with
+    // a seeded skew threshold and no rate limit, so that the warning branch itself runs
+    // whenever the clock is far enough behind.
+    let warn_mode = [0u64, 0, 0, 1, 2, 2][rnd(6) as usize];
+    let with_warnings = warn_mode != 0;
+    let warn_threshold_us = [0u64, 1, 1000, 1_000_000][rnd(4) as usize];
     // 1 run in 10 has a well-behaved clock (the fault-free baseline)
     let sane = rnd(10) == 0;
     let base = 1_700_000_000_000_000i64 + rnd(1_000_000) as i64;
@@ -131,7 +137,10 @@ pub fn case(want_sample: bool) {
             ..Clock::default()
         }
     });
-    let generator = if with_warnings {
+    let generator = if warn_mode == 2 {
+        MonotonicTimestampGenerator::new()
+            .with_warning_times(std::time::Duration::from_micros(warn_threshold_us), std::time::Duration::ZERO)
+    } else if with_warnings {
         // default thresholds: 1 s skew, at most one warning per second
         MonotonicTimestampGenerator::new()
     } else {
